@@ -164,17 +164,21 @@ STEPS = ["edit", "bump", "remove", "rename", "recluster", "plain", "restore"]
 STEPS_MODB = ["edit", "bump", "remove", "break-import", "restore"]  # callee in a second module
 
 
+# explicit versions of the callee: ordinary, empty, containing the cluster separator and the version separator
+VERS = {"explicit": "d1", "explicit-empty": "", "explicit-colons": "1::2:#3"}
+
+
 def base_prog(callee_kind, cluster, argpass=False):
     if argpass == "modb":
         # the callee lives in a second module b of the package (referenced as b.D)
         R = mkfunc("R", kind="explicit", version="1", calls=[call("D", "modattr")], rich=False, cluster=cluster)
         D = mkfunc("D", kind="explicit" if callee_kind.startswith("explicit") else callee_kind, module="b",
-                   version={"explicit": "d1", "explicit-empty": ""}.get(callee_kind), rich=False, cluster=cluster)
+                   version=VERS.get(callee_kind), rich=False, cluster=cluster)
         return {"funcs": [R, D], "vars": {}}
     R = mkfunc("R", kind="explicit", version="1", calls=[call("D")], rich=False, cluster=cluster)
     # "explicit-empty": the callee's explicit version is the empty string
     D = mkfunc("D", kind="explicit" if callee_kind.startswith("explicit") else callee_kind,
-               version={"explicit": "d1", "explicit-empty": ""}.get(callee_kind), rich=False, cluster=cluster)
+               version=VERS.get(callee_kind), rich=False, cluster=cluster)
     if argpass:
         # the evolving function is handed to a middle function as an ARGUMENT: stored argument lists name its version
         R["calls"] = [{"target": "M", "form": "passfn", "fn": "D", "arg": 1}]
@@ -425,7 +429,7 @@ def run(ctx):
     ctx.rule = ("A: all version strings over %s up to length %d x clusters {none, c, c.d, c:d} x modules {m, p.m} x functions "
                 "{f, C.f}; B: versions of length <= %d (plus all length-3 strings containing ':' or '#' in thorough) as real "
                 "explicit versions in default and named clusters on memory and filesystem backends; C: all step sequences of "
-                "length <= 2 (thorough: 3, and 4 in the default cluster) over %s for callee kinds {memento, explicit, explicit with the empty version} x {default, named, named with a name that is a prefix of the module name} cluster x {callee called, callee handed to a middle function as an argument}, cross-process and in-process; listings may only grow. "
+                "length <= 2 (thorough: 3, and 4 in the default cluster) over %s for callee kinds {memento, explicit, explicit with the empty version, explicit with a version containing '::' ':' '#'} x {default, named, named with a name that is a prefix of the module name} cluster x {callee called, callee handed to a middle function as an argument}, cross-process and in-process; listings may only grow. "
                 "distinct = version strings / (version, cluster, backend) / evolution histories."
                 % (SIGMA, 4 if thorough else 3, 2, STEPS))
     ctx.assumptions += ["cluster names do not contain '::'", "module and function names are dotted Python identifiers"]
@@ -439,15 +443,15 @@ def run(ctx):
     bch = [vb[i:i + 12] for i in range(0, len(vb), 12)]
     ctx.merge(pmap(part_b, [(c, be) for c in bch for be in ("fs", "mem")], chunksize=1))
     tasks = []
-    for kind in ("memento", "explicit", "explicit-empty"):
+    for kind in ("memento", "explicit", "explicit-empty", "explicit-colons"):
         for cluster in (None, "vfc", "vf"):
-            if kind == "explicit-empty" and cluster == "vf":
+            if kind in ("explicit-empty", "explicit-colons") and cluster == "vf":
                 continue  # "vf" is a prefix of the module name vfp.a
             for argpass in (False, True):
                 for n in (1, 2, 3, 4) if thorough else (1, 2):
                     if n == 2 and not thorough and (cluster == "vf" or argpass):
                         continue
-                    if n >= 3 and kind == "explicit-empty":
+                    if n >= 3 and kind in ("explicit-empty", "explicit-colons"):
                         continue
                     if n == 3 and (cluster == "vf" or (argpass and kind == "explicit")):
                         continue
@@ -456,7 +460,7 @@ def run(ctx):
                     for steps in itertools.product(STEPS, repeat=n):
                         tasks.append((kind, cluster, steps, "xproc", argpass))
                         tasks.append((kind, cluster, steps, "inproc", argpass))
-            if kind != "explicit-empty":
+            if kind not in ("explicit-empty", "explicit-colons"):
                 for n in (1, 2):
                     for steps in itertools.product(STEPS_MODB, repeat=n):
                         tasks.append((kind, cluster, steps, "xproc", "modb"))
